@@ -31,11 +31,14 @@ def constCensus : Census := { localKind := fun k => if k == .const then 1 else 0
 def typesCensus : Census := { cast := 1, inst := 1, typeStmt := 1, tyNode := 1, generic := 1 }
 def attributeCensus : Census := { attr := 1 }
 
-/-- every Luau-only construct the shared AST can express -/
+/-- `x //= y` statements (the input invariant of the `remove_floor_division` theorem) -/
+def idivAssignCensus : Census := { cassign := fun op => if op == .idiv then 1 else 0 }
+
+/-- every Luau-only construct the shared AST can express: the SUM of the nine censuses (a `//=`
+statement counts twice, as a compound assignment and as a floor division) -/
 def luauCensus : Census :=
-  { bin := fun op => if op == .idiv then 1 else 0, ifx := 1, interp := 1, cast := 1, inst := 1,
-    cassign := fun _ => 1, cont := 1, localKind := fun k => if k == .const then 1 else 0,
-    typeStmt := 1, tyNode := 1, generic := 1, attr := 1 }
+  attributeCensus.add (constCensus.add (({} : Census).add (floorDivisionCensus.add (interpolatedStringCensus.add
+    (ifExpressionCensus.add (compoundCensus.add (typesCensus.add continueCensus)))))))
 
 def census_compound_assignment (b : Block) : Nat := countB compoundCensus b
 def census_continue (b : Block) : Nat := countB continueCensus b
@@ -49,6 +52,7 @@ def census_luau_number (_ : Block) : Nat := 0
 def census_const (b : Block) : Nat := countB constCensus b
 def census_types (b : Block) : Nat := countB typesCensus b
 def census_attribute (b : Block) : Nat := countB attributeCensus b
+def census_idiv_assign (b : Block) : Nat := countB idivAssignCensus b
 def census_luau (b : Block) : Nat := countB luauCensus b
 
 /-- the block uses no Luau-only construct (decidable: a `Nat` equation) -/
@@ -56,7 +60,9 @@ def IsLua51 (b : Block) : Prop := census_luau b = 0
 
 instance (b : Block) : Decidable (IsLua51 b) := inferInstanceAs (Decidable (_ = _))
 
-/-- all nine rules, in the order of the theorem `all_lowered_is_51` -/
+/-- all nine rules, in the order of the theorem `all_lowered_is_51`: `remove_continue`, `remove_types`,
+`remove_compound_assignment`, `remove_if_expression`, `remove_interpolated_string`, `remove_floor_division`,
+`convert_luau_number`, `make_assignment_local`, `remove_attribute` -/
 def lowerAll (truthy : Expr → Bool) (b : Block) : Block :=
   RemoveAttribute.apply <|
   MakeAssignmentLocal.apply <|
@@ -64,67 +70,101 @@ def lowerAll (truthy : Expr → Bool) (b : Block) : Block :=
   RemoveFloorDivision.apply <|
   RemoveInterpolatedString.apply <|
   RemoveIfExpression.apply truthy <|
-  RemoveContinue.apply <|
   RemoveCompoundAssign.apply <|
-  RemoveTypes.apply b
+  RemoveTypes.apply <|
+  RemoveContinue.apply b
 
 /-! ### decidable hypotheses of the partial theorems -/
 
 mutual
-  /-- every `continue` has an enclosing loop in the same function (`inLoop` = we are inside one) -/
+  /-- every `continue` has an enclosing loop in the same function (`inLoop` = we are inside one);
+  expressions hidden in `typeof(…)` of any type annotation are inspected too -/
+  def contOkTy : Ty → Bool
+    | .mk _ kids => contOkTys kids
+    | .typeof e => contOkE e
+  def contOkTys : List Ty → Bool
+    | [] => true
+    | t :: ts => contOkTy t && contOkTys ts
+  def contOkOTy : Option Ty → Bool
+    | none => true
+    | some t => contOkTy t
+  def contOkTN : TName → Bool
+    | .mk _ ty => contOkOTy ty
+  def contOkTNs : List TName → Bool
+    | [] => true
+    | t :: ts => contOkTN t && contOkTNs ts
   def contOkE : Expr → Bool
-    | .paren e | .un _ e | .field e _ | .cast e _ | .inst e _ => contOkE e
-    | .bin _ l r | .index l r => contOkE l && contOkE r
+    | .nil | .true | .false | .vararg | .num _ | .str _ | .var _ => true
+    | .paren e => contOkE e
+    | .un _ e => contOkE e
+    | .field e _ => contOkE e
+    | .bin _ l r => contOkE l && contOkE r
+    | .index l r => contOkE l && contOkE r
     | .call f _ _ args => contOkE f && contOkEs args
     | .fn body => contOkF body
     | .table es => contOkEntries es
     | .ifx c t elifs e => contOkE c && contOkE t && contOkPairs elifs && contOkE e
     | .interp segs => contOkSegs segs
-    | _ => true
+    | .cast e ty => contOkE e && contOkTy ty
+    | .inst e tys => contOkE e && contOkTys tys
   def contOkEs : List Expr → Bool
     | [] => true
     | e :: es => contOkE e && contOkEs es
+  def contOkOE : Option Expr → Bool
+    | none => true
+    | some e => contOkE e
   def contOkPairs : List (Expr × Expr) → Bool
     | [] => true
     | (a, b) :: rest => contOkE a && contOkE b && contOkPairs rest
+  def contOkEntry : Entry → Bool
+    | .pos v => contOkE v
+    | .named _ v => contOkE v
+    | .keyed k v => contOkE k && contOkE v
   def contOkEntries : List Entry → Bool
     | [] => true
-    | .pos v :: es | .named _ v :: es => contOkE v && contOkEntries es
-    | .keyed k v :: es => contOkE k && contOkE v && contOkEntries es
+    | e :: es => contOkEntry e && contOkEntries es
+  def contOkSeg : Seg → Bool
+    | .s _ => true
+    | .v e => contOkE e
   def contOkSegs : List Seg → Bool
     | [] => true
-    | .s _ :: es => contOkSegs es
-    | .v e :: es => contOkE e && contOkSegs es
+    | e :: es => contOkSeg e && contOkSegs es
+  /-- a function body starts outside any loop -/
   def contOkF : FnBody → Bool
-    | .mk _ _ _ _ _ _ body => contOkB false body
+    | .mk params _ varTy ret _ _ body => contOkTNs params && contOkOTy varTy && contOkOTy ret && contOkB false body
   def contOkS (inLoop : Bool) : Stmt → Bool
     | .assign ts vs => contOkEs ts && contOkEs vs
     | .cassign _ t v => contOkE t && contOkE v
     | .callStmt c => contOkE c
     | .doBlock b => contOkB inLoop b
-    | .function _ _ body | .localFn _ _ body | .typeFn _ _ body => contOkF body
-    | .gfor _ vs body => contOkEs vs && contOkB true body
-    | .nfor _ a b step body =>
-      contOkE a && contOkE b && (match step with | none => true | some s => contOkE s) && contOkB true body
-    | .ifs branches els =>
-      contOkBranches inLoop branches && (match els with | none => true | some b => contOkB inLoop b)
-    | .localAssign _ _ vs => contOkEs vs
+    | .function name _ body => !name.isEmpty && contOkF body   -- (a `FunctionName` always has a root)
+    | .localFn _ _ body => contOkF body
+    | .typeFn _ _ body => contOkF body
+    | .gfor names vs body => contOkTNs names && contOkEs vs && contOkB true body
+    | .nfor name a b step body => contOkTN name && contOkE a && contOkE b && contOkOE step && contOkB true body
+    | .ifs branches els => contOkBranches inLoop branches && contOkOB inLoop els
+    | .localAssign _ names vs => contOkTNs names && contOkEs vs
     | .repeat_ b c => contOkB true b && contOkE c
     | .while_ c b => contOkE c && contOkB true b
-    | .typeDecl .. => true
+    | .typeDecl _ _ ty => contOkTy ty
   def contOkBranches (inLoop : Bool) : List (Expr × Block) → Bool
     | [] => true
     | (c, b) :: rest => contOkE c && contOkB inLoop b && contOkBranches inLoop rest
   def contOkSs (inLoop : Bool) : List Stmt → Bool
     | [] => true
     | s :: ss => contOkS inLoop s && contOkSs inLoop ss
+  def contOkL (inLoop : Bool) : Last → Bool
+    | .ret es => contOkEs es
+    | .brk => true
+    | .cont => inLoop
+  def contOkOL (inLoop : Bool) : Option Last → Bool
+    | none => true
+    | some l => contOkL inLoop l
+  def contOkOB (inLoop : Bool) : Option Block → Bool
+    | none => true
+    | some b => contOkB inLoop b
   def contOkB (inLoop : Bool) : Block → Bool
-    | .mk stmts last =>
-      contOkSs inLoop stmts &&
-        (match last with
-         | some .cont => inLoop
-         | some (.ret es) => contOkEs es
-         | _ => true)
+    | .mk stmts last => contOkSs inLoop stmts && contOkOL inLoop last
 end
 
 /-- hypothesis of `census_zero_remove_continue_partial`: no `continue` outside a loop -/
